@@ -1219,9 +1219,47 @@ def report(ctx, case, source):
     return res
 
 
+# every implementation object the Gallina model (Model/C15_Scan.v, Model/C15_CookieJar.v) mirrors by hand
+MODELLED = [
+    # scanner / codec (C15_Scan.v)
+    "webob.cookies:_rx_cookie", "webob.cookies:_rx_unquote", "webob.cookies:_unquote", "webob.cookies:_ch_unquote",
+    "webob.cookies:_value_quote", "webob.cookies:_path_quote", "webob.cookies:_valid_cookie_name",
+    "webob.cookies:_parse_cookie", "webob.cookies:parse_cookie",
+    # request side (C15_CookieJar.v)
+    "webob.cookies:RequestCookies._cache", "webob.cookies:RequestCookies._mutate_header",
+    "webob.cookies:RequestCookies._valid_cookie_name", "webob.cookies:RequestCookies.__setitem__",
+    "webob.cookies:RequestCookies.__delitem__", "webob.cookies:RequestCookies.clear",
+    "webob.request:BaseRequest.cookies", "webob.request:BaseRequest.cookies.fset",
+    "webob.util:bytes_", "webob.util:text_",
+    # response side (C15_CookieJar.v)
+    "webob.cookies:make_cookie", "webob.cookies:Morsel.__init__", "webob.cookies:Morsel.__setitem__",
+    "webob.cookies:Morsel.serialize", "webob.cookies:cookie_property", "webob.cookies:serialize_max_age",
+    "webob.cookies:serialize_samesite", "webob.cookies:serialize_cookie_date",
+    "webob.response:Response.set_cookie", "webob.response:Response.delete_cookie", "webob.response:Response.unset_cookie",
+    "webob.response:Response.merge_cookies", "webob.headers:ResponseHeaders.getall", "webob.headers:ResponseHeaders.get",
+    "webob.multidict:MultiDict.add",
+]
+# what gen() translates into coq/Gen/C15_tables.v (tables read from the live module; regex shapes checked, fail-closed)
+REGENERATED = [
+    "webob.cookies:_allowed_cookie_bytes", "webob.cookies:_valid_token_bytes", "webob.cookies:_escape_map",
+    "webob.cookies:_path_quote", "webob.cookies:_ch_unquote_map", "webob.cookies:_c_keys", "webob.cookies:_c_renames",
+    "webob.cookies:_c_valkeys", "webob.cookies:serialize_samesite", "webob.cookies:_rx_cookie", "webob.cookies:_rx_unquote",
+]
+# exercised by the oracle only (reads through a view, the cache entry, the module flag left at its default)
+ORACLE_ONLY = [
+    "webob.cookies:RequestCookies.__init__", "webob.cookies:RequestCookies.__getitem__", "webob.cookies:RequestCookies.get",
+    "webob.cookies:RequestCookies.keys", "webob.cookies:RequestCookies.values", "webob.cookies:RequestCookies.items",
+    "webob.cookies:RequestCookies.__contains__", "webob.cookies:RequestCookies.__iter__", "webob.cookies:RequestCookies.__len__",
+    "webob.cookies:SAMESITE_VALIDATION",
+]
+
+
 def run(ctx):
     warnings.simplefilter("ignore")
     _SEEN_KEYS.clear()
+    ctx.modelled(MODELLED)
+    ctx.extra["regenerated_from_source"] = REGENERATED
+    ctx.extra["oracle_only"] = ORACLE_ONLY
     for p in gen(ctx):
         ctx.broken.append(p)
     ctx.build(["Props/C15.vo"])
